@@ -604,7 +604,7 @@ func init() {
 		c.Assume = append(c.Assume, "the model is the oracle and is compared with the implementation on every transition, so traces_validated_against_impl equals transitions", "memnet replaces net/http", "the OS CSPRNG behind crypto/rand is assumed sound; the check is that the id is an injective function of >=16 bytes obtained from it", "quick: depth<=4, <=2 sessions; thorough: depth<=6, <=3 sessions; plus a preemption-bounded DFS of DELETE || request || GET on one session")
 		c.Enumerate("c04/bfs")
 		c.Enumerate("c04/idquality")
-		c.DFS("c04/delete-race", explore.Bounds{Preempt: c.Pick(3, 5), Dev: c.Pick(1, 2), POR: true})
+		c.DFSBoth("c04/delete-race", explore.Bounds{Preempt: c.Pick(3, 5), Dev: c.Pick(1, 2)}, 1)
 	})
 }
 
